@@ -235,7 +235,10 @@ def _make_method(name, doc):
 
     name = str(name)                                      # IronPython issue #10
     if name == "__call__":
-        def __call__(_self, *args, **kwargs):
+        def __call__(*args, **kwargs):
+            # the proxy itself is taken from *args so that no keyword name is reserved: the target may well
+            # accept a keyword argument called `_self` (or `self`)
+            _self, args = args[0], args[1:]
             kwargs = tuple(kwargs.items())
             return syncreq(_self, consts.HANDLE_CALL, args, kwargs)
         __call__.__doc__ = doc
@@ -256,7 +259,8 @@ def _make_method(name, doc):
         __array__.__doc__ = doc
         return __array__
     else:
-        def method(_self, *args, **kwargs):
+        def method(*args, **kwargs):
+            _self, args = args[0], args[1:]
             kwargs = tuple(kwargs.items())
             return syncreq(_self, consts.HANDLE_CALLATTR, name, args, kwargs)
         method.__name__ = name
